@@ -277,6 +277,9 @@ func (in *Interp) indexAddr(x Value, iv Value, it types.Type) Value {
 	return in.mapAlts(x, func(v Value) Value {
 		switch a := v.(type) {
 		case *SliceVal:
+			if a.SymLen != nil {
+				panic(in.unsupported("indexing a slice of symbolic length"))
+			}
 			in.boundsCheck(idx, a.Len)
 			if idx.IsConst() {
 				return &PtrVal{Obj: a.Obj, Path: []Sel{{Idx: a.Off + int(idx.Val)}}}
@@ -394,6 +397,9 @@ func (in *Interp) sliceOp(i *ssa.Slice, env Env) Value {
 
 // sliceElems returns the element values of a slice.
 func (in *Interp) sliceElems(s *SliceVal) []Value {
+	if s.SymLen != nil {
+		panic(in.unsupported("elements of a slice of symbolic length"))
+	}
 	if s.Obj == nil || s.Len == 0 {
 		return nil
 	}
